@@ -21,8 +21,12 @@ LEVEL_TEXT = ("All sets of <= N files over a pool of 8 paths (depth 0-3, shared 
               "and the JSON document are compared with a recomputation from the plain file list, and all orders of a set must agree.")
 LEVEL_NOTE = "Bounds: path pool and variants as in evidence.bounds, N files. Trusted: R-agg (mc/checks/c07.py: reference())."
 
-PATHS = ["a.py", "b.js", "d/a.py", "d/b.js", "d/e/a.py", "d/e/f/a.java", "e/a.py", "d2/e/a.py"]
-VARIANTS = [[], [15], [16, 17, 31], [61, 62, 63, 5, 40, 45]]  # pairwise distinct counts and sums per category
+# depth 0-3, shared prefixes, same basename in different folders, and top-level folder names that sort before and
+# after "./" (the root key) in every ordering a sorted() pass could use: '-' < '.' < '/' < '0' < 'A' < '_' < 'a' < '~'
+PATHS = ["a.py", "b.js", "d/a.py", "d/b.js", "d/e/a.py", "d/e/f/a.java", "e/a.py", "d2/e/a.py",
+         "-l/a.py", "+s/e/a.py", "0/a.py", "~t/a.py"]
+# pairwise distinct counts and sums per category; lengths ON the category bounds (15, 30, 60) included
+VARIANTS = [[], [15], [16, 30, 31], [60, 61, 62, 5, 40, 45, 30]]
 LANG = {"py": "Python", "js": "JavaScript", "java": "Java"}
 
 
@@ -154,7 +158,9 @@ def run(ctx: core.Ctx):
     combos = []
     for n in range(0, N + 1):
         for paths in itertools.combinations(PATHS, n):
-            for variants in itertools.product(range(len(VARIANTS)), repeat=n):
+            # 4 files: two variants per file (otherwise 495 x 256 x 24 histories)
+            vr = range(len(VARIANTS)) if n <= 3 else (1, 3)
+            for variants in itertools.product(vr, repeat=n):
                 combos.append((paths, variants))
     step = max(1, len(combos) // (ctx.workers * 4) + 1)
     ctx.run_blocks(_block, [combos[i:i + step] for i in range(0, len(combos), step)])
